@@ -54,6 +54,13 @@ def main():
     patch = mut / "patch.diff"
     refresh()
     meta = {"mutant": mut.name, "confirmed": False}
+    try:
+        meta.update(json.loads(Path("/verif/tools/seeded_summaries.json").read_text()).get(a.keep_as or mut.name, {}))
+    except Exception:
+        pass
+    meta["ran"] = ("scratch worktree /tmp/eval-repo at /repo HEAD: cargo build, git apply patch.diff, cargo build, cargo test --workspace "
+                   "--offline (all must pass), demo.sd on both binaries (must differ), then ./check <id> on an rsync copy of /verif with "
+                   "SEED_REPO=/tmp/eval-repo; worktree reverted afterwards")
     # baseline demo
     rc, out = sh("cargo build --offline 2>&1 | tail -3", cwd=EVAL_REPO)
     demo = mut / "demo.sd"
